@@ -746,12 +746,17 @@ ENUM_OPS = {
 ENUM_LEN = {"quick": 4, "thorough": 5}
 
 
-def runs_enum_cases(tier: str) -> list:
+def runs_enum_cases(tier: str, part: int | None = None) -> list:
+    """All sequences; ``part`` selects those whose first operation has index = part (mod 3).
+
+    (Three sub-checks instead of one only so that the runner spreads them over processes.)
+    """
     import itertools
 
     ops = ENUM_OPS[tier]
     return [{"focus": "runs", "steps": [{"op": "init"}] + [ops[i] for i in seq]}
-            for seq in itertools.product(range(len(ops)), repeat=ENUM_LEN[tier])]
+            for seq in itertools.product(range(len(ops)), repeat=ENUM_LEN[tier])
+            if part is None or seq[0] % 3 == part]
 
 
 def prop_runs_enum(case):
@@ -789,15 +794,20 @@ PROPERTY = Property(
         "matrix: exhaustive product save function x registered format (+unknown, +harness plugin failing midway) x target state x "
         "allow_overwrite x explicit/inferred format; non-trivial = target present. project_*: Hypothesis state machines over a real "
         "Project in a temp dir (tiny seeded decay fits, 1 function evaluation) with result names m, m1, m_run_x, m_run_1, mm "
-        "(names ending in _run_dddd are ambiguous by construction and excluded); non-trivial = history storing runs under >= 2 names "
-        "of which one is a prefix of the other, with >= 2 runs of one name."
+        "(names ending in _run_dddd are ambiguous by construction and excluded), import_data / generate_model / generate_parameters with "
+        "all flag combinations, Project.open / Project.create on the existing project, and the user deleting an old (never the latest) "
+        "run folder; runs_enum: every sequence of a small alphabet of those operations; non-trivial = history storing runs under >= 2 "
+        "names of which one is a prefix of the other, with >= 2 runs of one name."
     ),
     subs=[
         Sub("matrix", prop=prop_matrix, enumerate=matrix_cases, exhaustive=True,
             doc="every glotaran.io.save_* x every registered format (+unknown, +failing harness plugin) x 4 target states x allow_overwrite x explicit/inferred"),
-        Sub("runs_enum", prop=prop_runs_enum, enumerate=runs_enum_cases, exhaustive=True,
-            doc="every sequence of length 4 (quick; thorough 5) over optimize(m) / optimize(m_run_x) [/ optimize(m_run_1)] / user deletes the "
-                "oldest run of m: run numbers, listing, earlier runs unchanged and loadable"),
+        *[
+            Sub(f"runs_enum_{'abc'[part]}", prop=prop_runs_enum, enumerate=lambda tier, part=part: runs_enum_cases(tier, part), exhaustive=True,
+                doc="every sequence of length 4 (quick; thorough 5) over optimize(m) / optimize(m_run_x) [/ optimize(m_run_1)] / user deletes the "
+                    f"oldest run of m: run numbers, listing, earlier runs unchanged and loadable (part {part + 1} of 3 by first operation)")
+            for part in range(3)
+        ],
         Sub("project_runs", machine=lambda: _machine("runs"), replay_steps=_replay("runs"),
             budget={"quick": 128, "thorough": 1600}, steps={"quick": 12, "thorough": 25},
             doc="run numbering, storage, earlier runs unchanged and loadable, flag handling of import_data / generate_* / Project.create"),
@@ -813,5 +823,7 @@ PROPERTY = Property(
         "a call is well-formed (must succeed) only for formats implementing the function and a target of the right kind",
         "import_data / generate_* with allow_overwrite and ignore_existing both set: either outcome admissible",
         "get_result_path / load_result with a run specifier name that exact run (their 'latest' flag only mutes a warning)",
+        "deleting an old run folder is an environment action; the latest run of a name is never deleted, so 'previous maximum + 1' stays unambiguous",
+        "run numbers stay far below the 4-digit limit of the documented run pattern",
     ],
 )
